@@ -23,7 +23,11 @@ rule = ("scripts = 'enc new <codec> <cap>' then direct encoder calls on a caller
         "removal of 0..3 finished frames, too many) x 5 framings x window/array, and calls with a NULL window; stream 3 = random structured messages incl. rejected "
         "command text.  Non-trivial = a script in which a frame was finished AND (a block of maximal length was "
         "closed, or a zero pair was folded, or the tail byte was inlined, or a call consumed only part of its input "
-        "or was refused for lack of space), counted per distinct script")
+        "or was refused for lack of space), counted per distinct script.  Second part (harness/drvxx_codec.cpp): the C++ "
+        "wrapper mpt::encode_array ('xa push/term/msg/data/shift/prepare'): 5 framings x pairs of small messages with "
+        "data() called while the next message has an open block, random producer/consumer histories with exact frame "
+        "consumption, compaction and message (fragment list) pushes; non-trivial there = data() handed out a finished "
+        "frame while a block of the next message was open")
 assumptions = [
     "libc memcpy/memmove/memchr/malloc/realloc behave as specified; allocation never fails in the harness runs",
     "the encoder window handed to the code is exactly the granted size (heap block of that size under AddressSanitizer)",
@@ -32,7 +36,8 @@ assumptions = [
 ]
 trusted = ["hand-written models MptModel/Impl/Encode.lean (encoders, array push) tied to mptcore/convert/encode_*.c, "
            "mptcore/array/array_push.c by harness/drv_codec.c (differential execution)",
-           "spec decoder Spec/Cobs.lean `dec` compared with the real decoders on every finished frame ('check' ops)"]
+           "spec decoder Spec/Cobs.lean `dec` compared with the real decoders on every finished frame ('check' ops)",
+           "mpt++/array.cpp (encode_array) is compiled into harness/drvxx_codec.cpp with UBSan's vptr check off"]
 
 ALPHA = [0x00, 0x01, 0x1f, 0x20, 0xdf, 0xe0, 0xff]
 PYHELPER = r"""
@@ -142,7 +147,7 @@ def generate(chk):
 
 
 def corpus(chk):
-    return gen.corpus(id)
+    return [(n, s) for n, s in gen.corpus(id) if not (s and s[0].startswith("xa "))]
 
 
 def enc_len(codec, n):
@@ -364,6 +369,113 @@ def scripts(tier, seed, scale=1):
     for k in range(0, len(cm), 16):
         out.append(("pycmd:%d" % k, ["pycmd %s %s" % (gen.hexs(m), f) for m, f in zip(cm[k:k + 16], cframes[k:k + 16])]))
     return out
+
+
+class _XA:
+    """second part: the C++ wrapper mpt::encode_array (mpt++/array.cpp) through harness/drvxx_codec.cpp"""
+    id = "C01"
+    area = "codec"
+    driver = "drvxx_codec"
+    cxx = True
+    fixed_lines = 1
+    # the buffers are C objects with a hand-made vtable: UBSan's C++ vptr check cannot accept them
+    link_extra = ["-fno-sanitize=vptr"]
+
+    @staticmethod
+    def corpus(chk):
+        return [(n, s) for n, s in gen.corpus(id) if s and s[0].startswith("xa ")]
+
+    @staticmethod
+    def scripts(tier, seed, scale=1):
+        out = []
+        r = gen.rng(id, tier, seed, "xa")
+        small = [[0x61, 0x61], [0x62, 0, 0x63], [0], [], [0x64] * 3, [0, 0, 0x65], [9] * 260, [0x66, 0xff]]
+        # producer pushes piecewise, consumer takes finished frames out while the next message is in progress
+        for codec in CODECS:
+            for i, m1 in enumerate(small):
+                for j, m2 in enumerate(small[:6]):
+                    if codec == "command":
+                        m1c, m2c = [b or 0x2e for b in m1], [b or 0x2e for b in m2]
+                    else:
+                        m1c, m2c = m1, m2
+                    lines = ["xa new " + codec]
+                    if m1c:
+                        lines.append("xa push " + gen.hexs(m1c))
+                    lines += ["xa term", "xa data"]
+                    half = m2c[:max(1, len(m2c) // 2)]
+                    if half:
+                        lines.append("xa push " + gen.hexs(half))
+                    lines.append("xa data")                       # finished frame + open block of the next message
+                    fl = enc_len(codec, len(m1c))
+                    lines += ["xa shift %d" % k for k in (fl + 5,)]   # too much: refused
+                    lines.append("xa data")
+                    if m2c[len(half):]:
+                        lines.append("xa push " + gen.hexs(m2c[len(half):]))
+                    lines += ["xa term", "xa data", "xa shift 0", "xa data"]
+                    out.append(("xa:%s:%d:%d" % (codec, i, j), lines))
+        # exact consumption of frames (lengths computed by the reference encoder), compaction, message pushes
+        from . import c03
+        n = (60 if tier == "quick" else 600) * scale
+        for k in range(n):
+            codec = r.choice(CODECS)
+            lines = ["xa new " + codec]
+            pend = []          # lengths of finished, unconsumed frames (only tracked for non-ZPE: ZPE lengths depend on the calls)
+            for _ in range(r.choice([2, 4, 8])):
+                m = structured(r, codec)[:r.choice([3, 20, 300])]
+                if codec == "command":
+                    m = [b or 0x2e for b in m]
+                how = r.choice(["push", "msg", "chunks"])
+                if how == "msg" and m:
+                    frs = chunkings(r, m, "rand")
+                    if r.random() < 0.3:
+                        frs.insert(r.randrange(len(frs) + 1), [])
+                    lines.append("xa msg " + ",".join(gen.hexs(f) for f in frs))
+                else:
+                    for c in chunkings(r, m, "rand" if how == "chunks" else "one"):
+                        lines.append("xa push " + gen.hexs(c))
+                    if r.random() < 0.4:
+                        lines.append("xa data")
+                lines.append("xa term")
+                if "zpe" not in codec:
+                    pend.append(len(m) + 1 if codec == "command" else len(c03.ref_encode(codec, m)))
+                lines.append("xa data")
+                what = r.choice(["none", "shift1", "shiftall", "compact", "toomuch"])
+                if what == "shift1" and pend:
+                    lines.append("xa shift %d" % pend.pop(0))
+                elif what == "shiftall" and pend:
+                    lines.append("xa shift %d" % sum(pend))
+                    pend = []
+                elif what == "compact":
+                    lines.append("xa shift 0")
+                elif what == "toomuch":
+                    lines.append("xa shift 100000")
+                if r.random() < 0.1:
+                    lines.append("xa prepare 8")
+                lines.append("xa data")
+            out.append(("xarnd:%d" % k, lines))
+        return out
+
+    @staticmethod
+    def nontrivial(script, c_lines):
+        # a finished frame was handed out while a block of the next message was open
+        for op, ln in zip(script, c_lines):
+            if op == "xa data" and ln.startswith("R frames=") and not ln.startswith("R frames=- "):
+                i = ln.find("| I ")
+                f = dict(x.split("=", 1) for x in ln[i + 4:].split() if "=" in x) if i >= 0 else {}
+                if f.get("scratch", "0") != "0":
+                    return True
+        return False
+
+    @staticmethod
+    def tally(chk, script, c_lines):
+        d = chk.__dict__.setdefault("distribution", {})
+        k = "xa:" + script[0].split()[2]
+        d[k] = d.get(k, 0) + 1
+
+    finding_key = staticmethod(lambda script, res: finding_key(script, res))
+
+
+extra_parts = [_XA]
 
 
 def _fields(ln):
